@@ -3104,9 +3104,22 @@ func (a *AccumulatedServiceOutput) Encode(e *Encoder) error {
 		return err
 	}
 
-	for accumulatedServiceHash := range *a {
+	// Before encoding, sort the keys (service id, then hash): the encoding of
+	// a set must not depend on the map iteration order
+	keys := make([]AccumulatedServiceHash, 0, len(*a))
+	for k := range *a {
+		keys = append(keys, k)
+	}
+	sort.Slice(keys, func(i, j int) bool {
+		if keys[i].ServiceID != keys[j].ServiceID {
+			return keys[i].ServiceID < keys[j].ServiceID
+		}
+		return bytes.Compare(keys[i].Hash[:], keys[j].Hash[:]) < 0
+	})
+
+	for i := range keys {
 		// AccumulatedServiceHash
-		if err := accumulatedServiceHash.Encode(e); err != nil {
+		if err := keys[i].Encode(e); err != nil {
 			return err
 		}
 	}
